@@ -139,13 +139,16 @@ func (c *searchClient) Search(ctx context.Context, in *pb.SearchRequest, opts ..
 }
 
 // Canned is a ready-made stream answer an interceptor may return.
-type Canned struct{ Items []*pb.SearchResultItem }
+type Canned struct {
+	Items []*pb.SearchResultItem
+	Err   error // reported by Recv after the items (nil = clean EOF)
+}
 
 func (c *searchClient) SearchPartitions(ctx context.Context, in *pb.SearchPartitionsRequest, opts ...grpc.CallOption) (pb.Search_SearchPartitionsClient, error) {
 	n, h, r, err := pre(c.t, "SearchPartitions", ctx, in)
 	if h {
 		if cn, ok := r.(*Canned); ok && err == nil {
-			return &itemStream{items: cn.Items}, nil
+			return &itemStream{items: cn.Items, err: cn.Err}, nil
 		}
 		return nil, err
 	}
